@@ -7,7 +7,7 @@ namespace {
 struct SdoEnv {
     World w; SdoDict d; const Plan &plan; Cov &cov; Verdict v; int opi = 0; int nsrv = CO_SSDO_N; uint8_t nodeId = 1; bool verbose;
     std::vector<std::pair<size_t, size_t>> range;   // image range per spec (sorted like the dictionary)
-    Hash trace; bool nontrivial = false;
+    Hash trace; bool nontrivial = false; bool srv1late = false, srv1on = true;
     SdoEnv(const Plan &p, Cov &c, bool vb) : plan(p), cov(c), verbose(vb) {}
     void fail(const std::string &rule, const std::string &det) { v.fail(plan.property + "/" + rule, det, opi); }
     uint32_t rxid(int srv) const { return (srv == 0 ? 0x600u : 0x640u) + nodeId; }
@@ -15,6 +15,9 @@ struct SdoEnv {
     void setup() {
         nodeId = (uint8_t)plan.c("nodeid", 1); if (nodeId < 1 || nodeId > 127) nodeId = 1;
         d.build(plan, nsrv);
+        // 'srv1late': the second server's COB-IDs are writable and invalid at start-up; the application switches it on later through the API (CODictWrLong), possibly while the first server is in a transfer
+        srv1late = nsrv > 1 && plan.c("srv1late", 0) != 0; srv1on = !srv1late;
+        if (srv1late) for (auto &sp : d.specs) if (sp.idx == 0x1201 && (sp.sub == 1 || sp.sub == 2)) { sp.flags = CO_OBJ_DN__RW; sp.val |= 0x80000000u; }
         NodeCfg cfg; cfg.nodeId = nodeId; cfg.freq = 1000; cfg.tmrNum = 8;
         w.verbose = verbose; w.build(0, cfg, d.specs); w.init(0); w.start(0);
         if (plan.c("oper", 0)) { w.rx(0, Frame(0, 2, {1, 0})); w.canproc(0); }
@@ -68,7 +71,7 @@ struct XferRun : SdoEnv {
 
     void begin(const Op &o) {
         int k = (int)(o.arg(0) & 1);
-        Live nl; decode_begin(o, d, nsrv, nl);
+        Live nl; decode_begin(o, d, nsrv, nl); if (nl.s.srv == 1 && !srv1on) return;   // the second server is not switched on yet
         // two sessions never share a server or an object (two writers to one domain share its cursor: outside the property)
         Live &other = L[k ^ 1];
         if (other.active && !other.s.finished() && (other.s.srv == nl.s.srv || (other.o->idx == nl.o->idx && other.o->sub == nl.o->sub) || (other.o->kind == 1 && nl.o->kind == 1 && false))) return;
@@ -299,6 +302,7 @@ struct XferRun : SdoEnv {
             const Op &o = plan.ops[(size_t)opi]; w.opIndex = (uint32_t)opi; cov.ops++;
             if (o.k == "begin") begin(o);
             else if (o.k == "step") step((int)o.arg(0), (int)o.arg(1, -1));
+            else if (o.k == "enable2") { if (srv1late && !srv1on) { w.cur = 0; std::vector<uint8_t> img = w.image(0); CO_ERR e1 = CODictWrLong(&w.N(0)->Dict, CO_DEV(0x1201, 1), 0x640u + nodeId), e2 = CODictWrLong(&w.N(0)->Dict, CO_DEV(0x1201, 2), 0x5C0u + nodeId); if (e1 != CO_ERR_NONE || e2 != CO_ERR_NONE) { fail("enable2/refused", "switching the second SDO server on through the API was refused"); return v; } srv1on = true; (void)img; cov.hit("second-server-switched-on-through-the-api"); nontrivial = true; } }
             else if (o.k == "finish") { int guard = 6000; while (v.ok && L[o.arg(0) & 1].active && !L[o.arg(0) & 1].s.finished() && guard-- > 0) step((int)o.arg(0)); if (guard <= 0) fail("endless-transfer", "transfer did not end within 6000 client frames"); }
             else if (o.k == "req") req(o);
             else if (o.k == "g") { Frame f(0, (uint8_t)o.arg(1, 8), o.b); if (o.arg(2, -1) >= 0) { w.s[0].sendFailAfter = (int)o.arg(2); cov.hit("F5-sdo-response-refused-by-driver"); } garbage((int)(o.arg(0) % nsrv), f); w.s[0].sendFailAfter = -1; }
@@ -334,16 +338,17 @@ static Op gen_begin(Rng &r, int k, bool upload, bool thorough) {
     return o;
 }
 static Plan gen_xfer(Rng &r, bool thorough, bool upload) {
-    Plan p; gen_cfg(r, p, upload);
+    Plan p; gen_cfg(r, p, upload); p.cfg["srv1late"] = r.chance(1, 6);
     if (p.cfg["dom2"] >= 65536) { Op o("begin", {0, (int64_t)r.below(2), 16, 1, 2, 1, (int64_t)r.below(2), 100000, (int64_t)r.below(1000), r.pick<int64_t>({127, 127, 64, 100})}); p.ops.push_back(o); p.ops.push_back(Op("finish", {0})); return p; }
     int sessions = (int)r.range(1, 3);
     for (int sidx = 0; sidx < sessions; sidx++) {
         bool two = r.chance(1, 3);
         p.ops.push_back(gen_begin(r, 0, r.chance(1, 8) ? !upload : upload, thorough));
         if (two) p.ops.push_back(gen_begin(r, 1, r.chance(1, 3) ? !upload : upload, thorough));
+        if (p.cfg["srv1late"] && sidx == 0) { /* first session on server 0, the switch-on somewhere inside it */ }
         bool faulty = r.chance(1, 4);     // F5: in a quarter of the sessions the CAN driver refuses some of the server's frames
         int n = (int)r.range(0, faulty ? 30 : 12);
-        for (int i = 0; i < n; i++) { int c = (int)r.below(10); if (c < 7) p.ops.push_back(Op("step", {two ? (int64_t)r.below(2) : 0, faulty && r.chance(1, 4) ? (int64_t)r.below(5) : -1})); else if (c == 7) p.ops.push_back(Op("tick", {r.range(1, 50)})); else if (c == 8) { std::vector<uint8_t> b; for (int j = 0; j < 8; j++) b.push_back(r.byte()); p.ops.push_back(Op("noise", {r.pick<int64_t>({0x80, 0x181, 0x701, 0x7FF, 0x5FF, 0x100, 0x7E6})}, b)); } else p.ops.push_back(Op("read", {(int64_t)r.below(14)})); }
+        for (int i = 0; i < n; i++) { int c = (int)r.below(10); if (c < 7) p.ops.push_back(Op("step", {two ? (int64_t)r.below(2) : 0, faulty && r.chance(1, 4) ? (int64_t)r.below(5) : -1})); else if (c == 7 && p.cfg["srv1late"] && r.chance(1, 2)) p.ops.push_back(Op("enable2")); else if (c == 7) p.ops.push_back(Op("tick", {r.range(1, 50)})); else if (c == 8) { std::vector<uint8_t> b; for (int j = 0; j < 8; j++) b.push_back(r.byte()); p.ops.push_back(Op("noise", {r.pick<int64_t>({0x80, 0x181, 0x701, 0x7FF, 0x5FF, 0x100, 0x7E6})}, b)); } else p.ops.push_back(Op("read", {(int64_t)r.below(14)})); }
         p.ops.push_back(Op("finish", {0})); if (two) p.ops.push_back(Op("finish", {1}));
     }
     return p;
